@@ -340,6 +340,22 @@ class Interp(object):
 
     def op_tb(self, node, ctx, pending):
         n = self.next_n()
+        handling = getattr(self, "handling", None)
+        if node.get("current") and handling:
+            # write_traceback() of the exception this except block is handling: the same instance that has just
+            # failed the actions it propagated through
+            e = handling[-1]
+            self.stat("traceback-of-handled-exception")
+            xf, tbs = self.extractor_fields(e)
+            tb_fields = dict(reason=safe_str(e), exception=exc_name(e))
+            for k, v in xf.items():
+                tb_fields[k] = safe_str(v) if k == "reason" else v
+            for t in tbs:
+                self.attach(ctx, t)
+            self.attach(ctx, {"kind": "msg", "type": "eliot:traceback", "tb": True, "fields": tb_fields, "n": n, "exc_obj": e})
+            self.stat("traceback")
+            self.api("write_traceback", write_traceback)
+            return
         e = make_exc(node["exc"], n)
         xf, tbs = self.extractor_fields(e)
         tb_fields = dict(reason=safe_str(e), exception=exc_name(e))
@@ -392,7 +408,13 @@ class Interp(object):
             if node.get("handler"):
                 # recovery code inside the except block: another exception is being handled meanwhile
                 self.stat("except-handler-body")
-                self.exec_nodes(node["handler"], ctx)
+                if not hasattr(self, "handling"):
+                    self.handling = []
+                self.handling.append(e)
+                try:
+                    self.exec_nodes(node["handler"], ctx)
+                finally:
+                    self.handling.pop()
         del ctx.stack[depth:]
         self.expect_current(ctx, "after try")
 
@@ -966,6 +988,9 @@ class Interp(object):
                 fresh.add(FileDestination(file=f))
                 tasks_before = len(self.run.tasks)
                 side_before = len(self.run.side_logs)
+                # an Action object cannot be shared with another process: actions the parent created for later
+                # are not entered here (the parent still owns and finishes them)
+                self.slots = {}
                 try:
                     cont(Ctx())
                 except Abort:
@@ -1447,7 +1472,8 @@ def programs(max_nodes=12, faults=False, remote=True, kinds=None, msg_kinds=None
         sers,
     )
     tb = exc_idx.map(lambda i: {"op": "tb", "exc": i})
-    rz = exc_idx.map(lambda i: {"op": "raise", "exc": i})
+    # exceptions whose class has an extractor registered out of the box (errno) are drawn more often
+    rz = st.one_of(exc_idx, exc_idx, st.sampled_from([EXC_TABLE.index(OSError), EXC_TABLE.index(FileNotFoundError)])).map(lambda i: {"op": "raise", "exc": i})
     leaf_options = [msg, msg, msg, msg, msg, msg, msg, msg, tb, tb]
     if extras:
         leaf_options.append(st.integers(0, 2).map(lambda k: {"op": "reseed", "seed": k}))
@@ -1503,11 +1529,13 @@ def programs(max_nodes=12, faults=False, remote=True, kinds=None, msg_kinds=None
             )
         if raises:
             small = st.lists(leaf, max_size=2) if not extras else st.lists(st.one_of(leaf, action), max_size=2)
+            tbc = exc_idx.map(lambda i: {"op": "tb", "exc": i, "current": True})
+            in_handler = st.lists(st.one_of(leaf, tbc, tbc), max_size=2) if not extras else st.lists(st.one_of(leaf, action, tbc, tbc), max_size=2)
             options.append(
                 st.builds(
                     lambda b, h, f_: {"op": "try", "body": b, "handler": h, "final": f_},
                     body,
-                    st.one_of(st.just([]), small),
+                    st.one_of(st.just([]), in_handler),
                     st.one_of(st.just([]), st.just([]), small),
                 )
             )
